@@ -136,6 +136,13 @@ def _hwt(e):
             if n.attr in ("lines", "columns") and norm(n.value) == "get_terminal_size()":
                 return ast.Subscript(value=n.value, slice=ast.Constant(value=1 if n.attr == "lines" else 0), ctx=ast.Load())
             return n
+
+        def visit_Subscript(self, n):
+            self.generic_visit(n)
+            # `self.rendered_size[1]` is `self.rendered_height` ([0]: rendered_width) - the properties are defined that way
+            if norm(n.value) == "self.rendered_size" and isinstance(n.slice, ast.Constant) and n.slice.value in (0, 1):
+                return ast.Attribute(value=ast.Name(id="self", ctx=ast.Load()), attr="rendered_height" if n.slice.value == 1 else "rendered_width", ctx=ast.Load())
+            return n
     from tiv.astutil import clone
     return T().visit(clone(e))
 
